@@ -68,6 +68,9 @@ def parseQuery (q : Bytes) : List (Bytes × Bytes) × Bool :=
       | some k', some v' => ((k', v') :: acc.1, acc.2)
       | _, _ => (acc.1, false)) ([], true)
 
+/-- `QueryEscape(k) + "=" + QueryEscape(v)` -/
+def encodePair (k v : Bytes) : Bytes := queryEscape k ++ 61 :: queryEscape v
+
 /-- `Values.Get(key)`: first value -/
 def getParam (ps : List (Bytes × Bytes)) (key : Bytes) : Option Bytes :=
   (ps.find? (fun p => p.1 = key)).map (·.2)
